@@ -37,6 +37,7 @@ THEOREMS = [
     "BeyondVerif.C20.fresh_names_keep_methods",
     "BeyondVerif.C20.sites_register_root",
     "BeyondVerif.C20.builtin_links_have_methods",
+    "BeyondVerif.C20.small_named_forests_exact",
     "BeyondVerif.C20W.pentagon_not_shortest",
     "BeyondVerif.C20W.topo_ctor_alone_unresolvable",
     "BeyondVerif.C20W.subclass_registration_unresolvable",
@@ -47,23 +48,55 @@ LEVEL_TEXT = ("Lean theorems over the routing model: for every insertion history
               "for every unconnected pair, fuel >= number of nodes always suffices (forest_routes_exact, forest_routes_exact_bounded, forest_path_unique, forest_tables_exact, "
               "forest_routingExact, by induction over histories with a traversal invariant for _update); linking a fresh leaf changes no existing route "
               "(new_registration_preserves); the three built-in graphs, regenerated from the source in execution order each run, and all forest "
-              "histories on <=4 nodes are additionally checked by (kernel) decide. Exact differential correspondence of the model with the real Node "
-              "class on exhaustive/random histories.")
-LEVEL_NOTE = ("shortest-chain clause for cyclic graphs is false of the code (known finding, pinned); model hand-written, tied by correspondence; "
-              "Lean kernel + propext/Classical.choice/Quot.sound")
-TECHNIQUE = "Lean 4 proof by induction over insertion histories + kernel decide on regenerated graphs; exact model/implementation correspondence"
+              "histories on <=4 nodes are additionally checked by (kernel) decide. "
+              "Registry layer (Model/Registry.lean: node identity distinct from node name, method table keyed (holder, '<a>_to_<b>') with lookup on the START "
+              "object through instance dict and MRO, as convert_to does): with one name per node the named model is the routing model above "
+              "(named_model_is_node_model); for every history of registry operations and any names a returned path is a chain of inserted links ending at a node "
+              "carrying the goal name (named_path_valid_chain); for every history of executions of registration sites that store the method of each link they insert on "
+              "the base class, every link stays registered (registered_run) and convert_to never raises 'Unknown transformation' on a connected pair, from any start "
+              "object that is an instance of the base class (convert_resolves, convert_never_unknown_transformation); the registration sites of the current source, "
+              "regenerated from the AST each run, satisfy that hypothesis (sites_register_root, decide) and every built-in link has a class-body method "
+              "(builtin_links_have_methods, decide); registrations under new names change no lookup between old names (fresh_names_keep_methods); all forests on <=3 "
+              "nodes under every assignment of (shared) names route to a nearest node of the name (small_named_forests_exact, kernel decide). "
+              "Exact differential correspondence of both models with the real Node / Orientation / Center classes on exhaustive/random histories.")
+LEVEL_NOTE = ("shortest-chain clause for cyclic graphs is false of the code (known finding, pinned); a bare TopocentricOrientation stores its link method on the "
+              "instance only (known finding, kernel-checked witness); models hand-written, tied by correspondence, registration sites and built-in tables regenerated "
+              "from the source; Lean kernel + propext/Classical.choice/Quot.sound")
+TECHNIQUE = "Lean 4 proof by induction over insertion / registration histories + kernel decide on tables and sites regenerated from the source; exact model/implementation correspondence"
 TRUSTED = [
     "harness/extract_graphs.py: records every Node.__add__ executed at import of beyond (execution order) -> Generated/Graphs.lean",
-    "correspondence: real Node objects vs compiled Lean model on identical insertion histories, exact comparison of neighbour sets, every routing table and every path",
+    "harness/c20_sites.py: reads the registration sites (setattr holder, key composition, link operands, order, calls of other sites) from the AST of center.py, orient.py, "
+    "stations.py, frames.py, lagrange.py, solarsystem.py, jpl.py -> Generated/RegSites.lean; hand-written there: per site, which source expression denotes self / parent / other "
+    "(checked for consistency at every inlined call; anything unrecognised aborts the extraction)",
+    "correspondence: real Node objects vs compiled Lean model on identical insertion histories, exact comparison of neighbour sets, every routing table and every path "
+    "(also with nodes sharing names); real Orientation / Center classes and subclasses (TopocentricOrientation, LocalOrbitalOrientation, LagrangeOrient, JplCenter, user-defined "
+    "sub- and sub-subclasses) driven through the registration sites of the code and raw + / setattr vs the compiled registry model: graph, and for every start object and goal name "
+    "the exception kind or the chain of (step, direct/reverse, object owning the resolved method) of a real convert_to call",
+    "harness/c20_registry.py: bounded walk of Node.routes (n+2 steps) used to decide that a real path()/convert_to call terminates before making it",
 ]
 ASSUMPTIONS = [
-    "the model Model/Node.lean is hand-written; it is tied to beyond/utils/node.py by the exact correspondence run only",
+    "the models Model/Node.lean and Model/Registry.lean are hand-written; they are tied to beyond/utils/node.py, beyond/frames/center.py, orient.py by the exact correspondence runs "
+    "and (registration sites, built-in links and class-body methods) by tables regenerated from the source",
+    "method keys are modelled as pairs of names: node names do not contain the substring '_to_' (the code concatenates f'{a}_to_{b}')",
+    "a Center and its Node are one object of the model (Center.__init__ creates exactly one Node under the same name); single inheritance below Orientation / Center (MRO = chain)",
+    "no conversion runs in the middle of a registration site (a site's link and setattr are observed together)",
 ]
-OPEN = []
-NOT_COVERED = ["'a shortest chain in general' is false of the current code (known finding C20-cyclic-nonshortest)"]
+OPEN = [
+    "with nodes sharing a name, 'routes lead to a nearest node of the name and never loop' is proved only for <=3 nodes (kernel decide); beyond that it is compared exhaustively "
+    "(4 nodes) / on random forests with the real code (forest_routes_exact assumes one name per node)",
+    "registration sites of beyond.env.solarsystem / beyond.env.jpl / lagrange() centres are tied by the AST extraction and by the real-registry oracle, not by the synthetic correspondence",
+]
+NOT_COVERED = ["'a shortest chain in general' is false of the current code (known finding C20-cyclic-nonshortest)",
+               "a TopocentricOrientation constructed directly is linked but unresolvable from other orientations (known finding C20-topocentric-ctor-instance-only)",
+               "which of several live nodes of ONE name a conversion designates: the code routes to the nearest node of the name and the newest registration of a key shadows the older one; "
+               "numerical results of conversions that pass through such a name (analytical and JPL 'Sun' both alive; a frame hanging behind a station that was re-created under its name) "
+               "are not claimed - the property speaks of registrations under new names"]
 RULE = ("correspondence: exhaustive enumeration of forest insertion histories (all orders, all orientations, every prefix) "
-        "on n<=5 (quick) / n<=6 (thorough) nodes plus random forests (<=40 nodes) and random cyclic graphs; a case is non-trivial "
-        "when it has >=2 links; distinct = distinct history. oracle: BFS on the real Node objects, registry interleavings on the real frame registry")
+        "on n<=5 (quick) / n<=6 (thorough) nodes plus random forests (<=40 nodes) and random cyclic graphs; the same with shared names (3 nodes: every name assignment x every history; "
+        "4 nodes sampled/exhaustive; random <=12 nodes; star-of-same-named-children shapes); registry scenarios: every driven site below a plain / subclass / sub-subclass parent, random "
+        "interleavings of sites and raw operations; a case is non-trivial when it has >=2 links; distinct = distinct history. oracle: BFS on the real Node objects (by identity when names "
+        "are shared), registry interleavings on the real frame registry in forked children (solarsystem, jpl with tests/data/jpl, lagrange, stations below non-ITRF parents, orbit frames, "
+        "re-registrations) under step / time / memory bounds")
 
 
 def extract(ctx):
